@@ -268,6 +268,19 @@ _add("C20", S+"initStageFile")
 # round 7: the sorted insertion itself
 for _p in ("C10", "C12"):
     _add(_p, "(*queue.Tagged).addFile")
+# round 7: seeds that only the check of another property reported
+_add("C01", H+"handleValidate$1", ["forward-needs-all-three", "status-codes"])
+_add("C01", S+"putFileAway", ["log-before-move", "one-record-per-call"])
+_add("C02", "(*http.Client).Transmit")
+_add("C02", "fileutil.Move")
+_add("C04", "(*payload.Bin).EncodeHeader")
+_add("C06", S+"GetFileStatus")
+_add("C08", S+"Receive", ["data-before-record", "record-under-lock"])
+_add("C08", "(*store.Local).Sync")
+_add("C09", S+"Recover", ["orphan-companion-only", "only-complete-partials-are-renamed"])
+_add("C11", "(*http.Client).Transmit")
+_add("C11", S+"partReceived", ["yes-needs-record-or-known-file", "same-version-only"])
+_add("C15", "(*main.serverApp).init$3", ["log-root-from-escaped-source", "roots-from-escaped-source"])
 
 os.makedirs(os.path.join(V, "props"), exist_ok=True)
 for pid, p in P.items():
